@@ -21,6 +21,10 @@
 // panicking readers, cancelled contexts) followed by healthy ones, sequentially on one P,
 // unpinned and concurrently; every healthy answer against the independent recomputation and
 // against a fresh process.
+// Section I (importkinds.go): module sets over the IMPORT-MODIFIER family (plain / public / weak as
+// the only link between modules, chains, mixed, well-known types, unprovided, cycles): b5
+// construction over the dependencies resolved from the import statements, and sensitivity of the
+// importer's digest to one changed byte in every (direct / transitive) dependency.
 // Section U (unicode.go): the UNICODE family of paths - every Unicode spelling class (NFC / NFD /
 // NFKC / NFKD variants, combining marks in non-canonical order, Hangul syllables vs jamo,
 // singleton and compatibility characters, zero-width and bidi characters, case-folding pairs,
@@ -1941,7 +1945,7 @@ func main() {
 	}
 	run := hx.Start("C08")
 	r := hx.NewRand(run.Seed)
-	// C08_SECTIONS=H (any subset of WMDGNHU) runs only those sections; case indices do not change
+	// C08_SECTIONS=H (any subset of WMDGNHUKI) runs only those sections; case indices do not change
 	secs := os.Getenv("C08_SECTIONS")
 	on := func(c byte) bool { return secs == "" || strings.IndexByte(secs, c) >= 0 }
 	tmp := filepath.Join(run.OutDir, "disk")
@@ -2055,5 +2059,10 @@ func main() {
 		sectionU(run, r.Fork(8), tmp)
 	}
 	sectionK(run, r.Fork(11), tmp, on('K')) // Section K (diskhist.go): digest histories on the disk backend, own stream, `--only 6000000+i`
+	// Section I (module sets over the import-modifier family, importkinds.go; own generator stream
+	// r.Fork(12); case indices start at iBase)
+	if on('I') {
+		sectionI(run, r.Fork(12))
+	}
 	run.Finish()
 }
